@@ -15,13 +15,20 @@ NPER = 8        # steps per synchrotron period: a power of two, so that -T k/8 i
 
 # further parameters that both legs and the uninterrupted run share ("with the same parameters")
 VARIANTS = [[], ["--PhaseSpaceShiftX", 2, "--PhaseSpaceShiftY", -1], ["--PhaseSpaceShiftY", 3], ["--LinearRF", "false", "--derivation", 3],
-            ["--PhaseSpaceSize", 10, "--InterpolationPoints", 3], ["--alpha1", 0.02, "-f", 30000]]
+            ["--PhaseSpaceSize", 10, "--InterpolationPoints", 3], ["--alpha1", 0.02, "-f", 30000],
+            # further parameters the continued leg has to pick up exactly as the first leg had them
+            ["--alpha2", 5.0], ["--BeamEnergy", 2.5e9, "--AcceleratingVoltage", 1.4e6, "--BendingRadius", 5.559], ["--HarmonicNumber", 184, "--RevolutionFrequency", 2.7e6],
+            ["--InterpolateClamped", "true"], ["--RoundPadding", "false", "--padding", 2.3], ["--FPType", 1], ["--PhaseSpaceShiftX", -2.5, "--LinearRF", "false"],
+            ["--AcceleratingVoltage", 2e5, "--LinearRF", "false", "--alpha1", 0.01]]
 
 
 def base(n, imp, var=0):
     a = ["-s", n, "-N", NPER, "--padding", 2, "-I", 1e-3, "-d", 0.004]
     a += (["-G", 0] if imp == "none" else ["-G", 0.03, "--UseCSR", "false", "--CollimatorRadius", 0.002])
-    return a + VARIANTS[var]
+    v = VARIANTS[var]
+    if "--padding" in v:      # replaces the base value
+        i = a.index("--padding"); del a[i:i + 2]
+    return a + v
 
 
 def blob(n):
@@ -250,7 +257,7 @@ def run(res, tier):
             res.violate("C11/refusal/%s/not-refused" % name, case, "results file produced=%s simulated=%s message=%s; log tail: %s" % (produced, simulated, msg, r["log"][-160:].replace("\n", " | ")), replay=dict(cmd=r["cmd"]))
     res.rule = ("one evaluation = one (configuration, split point, start record): leg 1, leg 2 and the uninterrupted run of the real binary compared; plus the refusal cases; "
                 "distinct = hash of case + final phase-space record hash")
-    res.bounds_done.append("all %d split points x %d configurations (grid sizes %s x impedance{none,collimator} x RenormalizeCharge{-1,0,3,4}; %d shared-parameter variants: grid shifts, RF model, stencil, phase-space size, alpha1/-f) x start records %s; 10 refusal cases (missing, truncated, text, empty, two-bunch, no records, chosen record outside the file)" % (TOTAL - 1, len(groups), ns, len(VARIANTS) - 1, srecs))
+    res.bounds_done.append("all %d split points x %d configurations (grid sizes %s x impedance{none,collimator} x RenormalizeCharge{-1,0,3,4}; %d shared-parameter variants: grid shifts, RF model, stencil, phase-space size, alpha1/-f, alpha2, other rings, clamping, padding, FP type) x start records %s; 10 refusal cases (missing, truncated, text, empty, two-bunch, no records, chosen record outside the file)" % (TOTAL - 1, len(groups), ns, len(VARIANTS) - 1, srecs))
     return None
 
 
